@@ -192,6 +192,8 @@ def obligations(tier):
         obls.append(_obl("B/sink-raises/%s/k=3" % n[0],
                          {"template": "chain", "units": n + ["sink_fn"], "small": SP.inspects(n), "dom": 1},
                          3, B, nmask=NMASK))
-    from harness import c16_df
+    from harness import c16_df, c03_block
     obls.extend(c16_df.obligations(tier))
+    # exception transport through the blocking emit (loop in another thread)
+    obls.extend([o for o in c03_block.obligations(tier) if "/fail@" in o["name"]])
     return obls
